@@ -10,6 +10,8 @@ use std::collections::HashSet;
 pub struct TyProfile {
     /// bool members (only valid outside uniform/storage/push constant)
     pub bools: bool,
+    /// only square matrices (what glam can represent)
+    pub square_mats: bool,
     pub f64_: bool,
     pub ints: bool,
     pub atomic: bool,
@@ -25,10 +27,10 @@ pub struct TyProfile {
 
 impl TyProfile {
     pub fn full() -> Self {
-        TyProfile { bools: false, f64_: true, ints: true, atomic: true, rt: true, mats: true, nested: true, arrays: true, attrs: false, max_array: 6, friendly: 2 }
+        TyProfile { bools: false, square_mats: false, f64_: true, ints: true, atomic: true, rt: true, mats: true, nested: true, arrays: true, attrs: false, max_array: 6, friendly: 2 }
     }
     pub fn simple() -> Self {
-        TyProfile { bools: false, f64_: false, ints: true, atomic: false, rt: false, mats: false, nested: false, arrays: false, attrs: false, max_array: 4, friendly: 4 }
+        TyProfile { bools: false, square_mats: false, f64_: false, ints: true, atomic: false, rt: false, mats: false, nested: false, arrays: false, attrs: false, max_array: 4, friendly: 4 }
     }
 }
 
@@ -175,6 +177,9 @@ fn gen_leaf(ch: &mut Ch, tp: &TyProfile) -> Ty {
         if !tp.mats && matches!(t, Ty::M { .. }) {
             return Ty::V(4, Sc::F32);
         }
+        if tp.square_mats && matches!(t, Ty::M { c, r, .. } if c != r) {
+            return Ty::M { c: 4, r: 4, s: Sc::F32 };
+        }
         return t;
     }
     let w = [3u32, 4, if tp.mats { 3 } else { 0 }, if tp.atomic { 1 } else { 0 }];
@@ -183,7 +188,9 @@ fn gen_leaf(ch: &mut Ch, tp: &TyProfile) -> Ty {
         1 => Ty::V(ch.range(2, 4) as u8, gen_scalar(ch, tp)),
         2 => {
             let s = if tp.f64_ && ch.chance(1, 4) { Sc::F64 } else { Sc::F32 };
-            Ty::M { c: ch.range(2, 4) as u8, r: ch.range(2, 4) as u8, s }
+            let c = ch.range(2, 4) as u8;
+            let r = if tp.square_mats { ch.raw(); c } else { ch.range(2, 4) as u8 };
+            Ty::M { c, r, s }
         }
         _ => Ty::At(if ch.flip() { Sc::U32 } else { Sc::I32 }),
     }
